@@ -85,6 +85,12 @@ def lines_for(d):
         params = PARAMS[d["kind"]]
         p, q, how, form = d["p"], d["q"], d["how"], d["form"]
         o1, o2 = [], []
+        if how == "valid" and form == "order2_true":
+            import epgpy
+            P2 = sorted({tuple(sorted(map(str, pair))) for pair in getattr(epgpy, d["kind"]).PARAMETERS_ORDER2})
+            s1 = " ".join(f"{v}:{','.join(ps)}" for v, ps in d["o1"])
+            s2 = " ".join(f"{a},{b}" for a, b in P2)
+            return [f"guard decltrue {' '.join(params)} ; {s2} ; {s1}", f"guard expand {s2} ; {s1}"]
         if how == "valid":
             if form == "name":
                 o1 = [(p, [p])]
@@ -141,10 +147,18 @@ def compare(r, epg, ncase):
     pos, dis, hits = 0, [], {}
     for d, n in zip(descs, counts):
         answers = out[pos:pos + n]; pos += n
+        pairs_ans = [a.strip() for a in answers if a.strip().startswith("pairs")]
+        answers = [a for a in answers if not a.strip().startswith("pairs")]
         model = "raise" if any(a.strip() == "raise" for a in answers) else "ok"
         if any(a.strip() not in ("raise", "ok") for a in answers):
             model = "bad-op"
         got, exc = c20.run_real(d, epg)
+        if pairs_ans and got == "ok":
+            # order2=True: the pairs the operator differentiates twice are those of the model's expansion
+            mp = sorted({tuple(sorted(t.split(","))) for t in pairs_ans[0].split()[1:]})
+            rp = [tuple(x) for x in d.get("real_pairs", [])]
+            if mp != rp:
+                dis.append({"kind": "c20-guard", "problems": [(f"order2=True: model pairs {mp}, operator pairs {rp}", None)], "input": d})
         key = f"{d['cls']}:{d.get('how', d['expect'])}:{got}"
         hits[key] = hits.get(key, 0) + 1
         probs = []
